@@ -43,6 +43,13 @@ class CallMixin:
                 return self.as_int(i, ti, lambda iv: self.bind("Py.index {} {}".format(view(c), iv), el, k, "x"))
             if isinstance(t, TDict):
                 return self.bind("Py.dictGet {} {}".format(c, coerce(i, ti, t.k)), t.v, k, "x")
+            if isinstance(t, TRange):
+                return self.as_int(i, ti, lambda iv: self.bind("Py.Range.get {} {}".format(c, iv), INT, k, "x"))
+            if isinstance(t, TObj):
+                fn = self.reg.method(self.reg.classes[t.cls], "__getitem__")
+                if fn is None:
+                    raise Unsupported("subscript of an object without a translated __getitem__")
+                return self.emit_call(fn, [c, coerce(i, ti, fn.params[0][1])], k)
             if isinstance(t, (TList, TOpt, TUnion)):
                 return self.as_list(c, t, lambda l, el: self.as_int(i, ti, lambda iv: self.bind(
                     "Py.index {} {}".format(l, iv), el, k, "x")))
